@@ -382,10 +382,17 @@ def seconds(interval):
     """what an interval given as a number or as a pandas-style string means, computed independently of streamz"""
     if isinstance(interval, (int, float)):
         return int(interval)
-    units = {"ms": 0.001, "s": 1, "min": 60, "h": 3600, "d": 86400, "day": 86400, "days": 86400, "w": 604800}
+    units = {"ms": 0.001, "s": 1, "sec": 1, "min": 60, "h": 3600, "d": 86400, "day": 86400, "days": 86400, "w": 604800}
     import re as _re
-    m = _re.fullmatch(r"\s*(\d+)\s*([a-zA-Z]+)\s*", interval)
-    return int(int(m.group(1)) * units[m.group(2).lower()])
+    from fractions import Fraction
+    # pandas-style: one or more <number><unit> components, numbers may be fractional ("1.0s", "1min 30s", "0.05min")
+    parts = _re.findall(r"(\d+(?:\.\d+)?)\s*([a-zA-Z]+)", interval)
+    if not parts or _re.sub(r"(\d+(?:\.\d+)?)\s*([a-zA-Z]+)|\s+", "", interval):
+        raise ValueError("interval string outside the harness's grammar: %r" % (interval,))
+    total = sum(Fraction(n) * Fraction(str(units[u.lower()])) for n, u in parts)
+    if total.denominator != 1:
+        raise ValueError("interval is not a whole number of seconds: %r" % (interval,))
+    return int(total)
 
 
 def replay_node(engine, v, driver="async_driver.py"):
